@@ -204,6 +204,8 @@ def main(chk, replay=None):
             chk.evaluations -= 1
             chk.traces += 1
     chk.logged['gstd_vs_definition'] = gstd_obs
+    from harness import session
+    session.run(chk, 'C12', every=4 if chk.quick else 1)    # spec/Session.tla: the property in every state of analysis sessions
     chk.exhaustive = True
 
 
